@@ -87,3 +87,24 @@ def c01(ctx):
                     trace_module="Trace_C01", sigfn=V.default_sig,
                     assumptions=["TLC/SANY and the JVM", "TsHeader's field table is ISO/IEC 13818-1 Table 2-2 (cross-checked against a mask/shift reading by MC_C01)",
                                  "the harness logs real return values; packet body bytes are sampled, header byte(s) x value space is enumerated"])
+
+
+# ---------------------------------------------------------------- C13
+
+@prop("C13", "Trace_C13")
+def c13(ctx):
+    thorough = ctx.tier == "thorough"
+    V.mc(ctx, "MC_C13", cfg="MC_C13_thorough.cfg" if thorough else "MC_C13.cfg")
+    tab = os.path.join(ctx.dir, "c13.tab.ndjson")
+    V.tlc_emit(ctx, "Gen_C13", tab)
+    rep = V.table_compare(ctx, tab)
+    ctx.exhaustive = True
+    summ = V.gen_traces(ctx, shards=12)
+    V.validate(ctx, "Trace_C13", summ, V.default_sig, par=12)
+    return V.finish(ctx, "model_checking",
+                    rule="B1 (exhaustive): TLC computes CRC-32/MPEG-2 of all 65 793 byte strings of length 0..2, compared with ComputeCRC. "
+                         "B3: all single-bit strings of lengths 1..16, a stride (quick) or all (thorough) single-bit strings of lengths 32,64,183,184,188,1021,1024, "
+                         "random strings up to 1024 bytes; TLC checks crc = Crc32(data) and that ComputeCRC(data ++ crc) = 0. class = (pattern kind, length bucket)",
+                    trace_module="Trace_C13", sigfn=V.default_sig,
+                    assumptions=["TLC/SANY and the JVM", "CommunityModules Bitwise (^^)", "Crc.tla: serial definition = table form (MC_C13) and catalogue check value 0x0376E6E7",
+                                 "sections emitted by the library (filtered PMT, splice_info_section) are checked for residue 0 in C14 and C09"])
